@@ -119,7 +119,7 @@ def match_table(grammar, w, names=None):
             if p < len(w):
                 try:
                     m = t.recognizer(w, p)
-                except TypeError:
+                except (TypeError, IndexError):
                     m = None
             if type(m) is tuple:
                 m = m[0]
@@ -129,12 +129,13 @@ def match_table(grammar, w, names=None):
 
 
 def dump_tree(n):
-    """A tree (LR build_tree result, or one tree taken from a forest) as nested tagged records."""
+    """A tree (LR build_tree result, or one tree taken from a forest) as nested tagged records.
+    (For list inputs a token's value is a list of one-character items; it is encoded like the text it spells.)"""
     s = -1 if n.start_position is None else n.start_position
     e = -1 if n.end_position is None else n.end_position
     lc = n.layout_content if isinstance(n.layout_content, str) else ""
     if n.is_term():
-        return {"k": "T", "t": n.symbol.name, "s": s, "e": e, "l": [ord(c) for c in lc], "v": [ord(c) for c in n.value]}
+        return {"k": "T", "t": n.symbol.name, "s": s, "e": e, "l": [ord(c) for c in lc], "v": [ord(c[0]) for c in n.value]}
     return {"k": "N", "p": n.production.prod_id, "s": s, "e": e, "l": [ord(c) for c in lc], "c": [dump_tree(c) for c in n]}
 
 
